@@ -617,6 +617,13 @@ func (g *pgen) cmdList() *doc.Node {
 			l.Seq = append(l.Seq, g.cmdScalar())
 		}
 	}
+	if len(l.Seq) > 1 && len(g.o.Refs) == 0 && !g.o.UniqueStrings && g.chance(8) {
+		// an entry that ends in a carriage return (a script with Windows line endings split at the line feeds)
+		if e := l.Seq[g.r.IntN(len(l.Seq)-1)]; e.Kind == doc.KStr {
+			e.Str += "\r"
+			g.feat("cmd:entry-ends-in-cr")
+		}
+	}
 	return l
 }
 
@@ -941,6 +948,11 @@ func (g *pgen) matrixValues(allowEmpty bool) *doc.Node {
 	}
 	for i := 0; i < n; i++ {
 		l.Seq = append(l.Seq, g.matrixValue())
+	}
+	if n > 0 && g.chance(6) {
+		// a value listed twice (two identical jobs): the list is data, repeats included
+		l.Seq = append(l.Seq, l.Seq[g.r.IntN(n)].Clone())
+		g.feat("matrix:repeated-value")
 	}
 	return l
 }
